@@ -45,7 +45,7 @@ pub fn check(tier: Tier) -> Check {
         also_rel: false,
         property: "C14",
         level: "model_checking",
-        rule: "the Context is dropped at every point of every bounded history of operations and subscriptions (operations queued-but-unpolled via held tasks, awaiting acknowledgement, between the QoS 2 phases, acknowledged-but-unpolled; streams with and without buffered messages), then up to two more operations are started (in two parts under a Maximum Packet Size that some of them exceed); under the strict-waker executor every future must complete / every stream must drain and end; non-trivial = ContextExited was delivered to a pending operation or a stream ended".into(),
+        rule: "the Context is dropped at every point of every bounded history of operations and subscriptions (operations queued-but-unpolled via held tasks, awaiting acknowledgement, between the QoS 2 phases, acknowledged-but-unpolled; streams with and without buffered messages), then up to two more operations are started (in two parts under a Maximum Packet Size that some of them exceed); under the strict-waker executor every future must complete / every stream must drain and end; (C14/refused) seven requests made before a connection attempt that is refused with each of 21 reasons (with / without Server Reference, Reason String) or answered by an AUTH challenge, attempted once or twice, then the drop; endings by server DISCONNECT 0x93 / 0x97 / 0x8b; value flavour; non-trivial = ContextExited was delivered to a pending operation or a stream ended".into(),
         assumptions: vec!["'context gone' means the Context value has been dropped".into()],
         parts,
     }
